@@ -35,6 +35,9 @@ var c12Names = []struct{ name, body string }{
 	{"e.txt", ""},
 	{"0.txt", "mm nn oo mm nn"}, // sorts before every directory component: visited first by the walk
 	{"dir.txt", "\x00DIR"},       // a DIRECTORY whose name ends in txt (body marker: created with Mkdir)
+	// bytes that a loader must hand over untouched: CRLF line ends behind a hyphen, a lone CR, a BOM,
+	// a NUL, trailing blanks (AddContent on the same bytes is the reference)
+	{"raw.txt", "\ufeffpp qq-\r\nrr ss\rtt uu\x00vv ww  \r\n\r\nxx yy zz\n"},
 }
 
 // large files (only offered at variant depth): bigger than any shipped corpus file (62 KB) and than
